@@ -167,7 +167,9 @@ func c07GenDoc(r *rand.Rand, tg *tokGen, pageURL string, sc c07Scenario) (string
 		case 2:
 			a, b := mk("img", "srcset", false), mk("img", "srcset", false)
 			desc := [][2]string{{"1x", "2x"}, {"480w", "800w"}}[r.Intn(2)]
-			v := a.Ref + " " + desc[0] + ", " + b.Ref + " " + desc[1]
+			// candidates end at a comma, with or without white space around it (HTML standard, "parse a srcset attribute")
+			sep := pick(r, []string{", ", ",", " , ", ",\n  ", ", "})
+			v := a.Ref + " " + desc[0] + sep + b.Ref + " " + desc[1]
 			q, qs := c07Quote(r, v, false)
 			a.Quote, b.Quote = qs, qs
 			fallback := mk("img", "src", false)
